@@ -253,7 +253,9 @@ def run(ctx):
         values = VALUES_QUICK
         for f in fams:
             jobs.append((f, 'inmem', VALUES_SMALL, 3, 8000))
-            jobs.append((f, 'inmem-warm', VALUES_QUICK, 3, 8000))
+            # the full value alphabet on the first two inputs (all inputs get the small alphabet in the cold job)
+            f2 = dict(f, inputs=f['inputs'][:2]) if len(f['inputs']) > 2 else f
+            jobs.append((f2, 'inmem-warm', VALUES_QUICK, 3, 8000))
             jobs.append((f, 'inmem-warm2', VALUES_SMALL, 2, 8000))
             jobs.append((f, 'xlsx', [7, None], 3, 8000))
             jobs.append((f, 'xlsx-warm', VALUES_SMALL, 2, 8000))
